@@ -471,6 +471,14 @@ impl EmitScope {
         self.choice_branch(name)
     }
 
+    /// Same scope, for a container whose content will be preceded by `offset` extra
+    /// elements (indexed paths into the container must account for them).
+    fn with_param_offset(&self, offset: usize) -> Self {
+        let mut scope = self.at_path(self.path.clone());
+        scope.param_offset = offset;
+        scope
+    }
+
     fn conditional_branch(&self, branch_name: &str) -> Self {
         self.choice_branch(branch_name)
     }
